@@ -164,7 +164,7 @@ GRID = [0, 1, 2, 3, -1, -2, 0x7fffffff, 0x80000000, 0xffffffff, 0x100000000, 0x7
 
 # modules on which the real translator is known to fail (crash / hang / rejected output / wrong code): each gets a unit of its own, so
 # that obligation names are stable and the counterexample trace stays small; everything else is grouped MAXMOD modules per unit
-SOLO = {"br_switch", "imm_ld", "imm_inf_f", "imm_inf_d", "imm_inf_ld", "mem_ld", "dat_fp", "dat_sect", "dat_expr", "ops_ld_mov", "mem_alloca", "ops_conv_ld"}
+SOLO = {"br_switch", "imm_ld", "imm_inf_f", "imm_inf_d", "imm_inf_ld", "mem_ld", "dat_fp", "dat_sect", "dat_expr", "ops_ld_mov", "mem_alloca"}
 
 
 class Corpus:
@@ -249,9 +249,27 @@ def corpus(outdir, tier):
     funcs = [("c20_" + o, "i64, i64:a", ["local i64:r", "%s r, a" % o] + (["uext32 r, r"] if o == "negs" else []) + ["ret r"]) for o in ["ext8", "ext16", "ext32", "uext8", "uext16", "uext32", "neg", "negs", "mov"]]
     u.module("ops_i2", [], funcs, [f[0] for f in funcs])
     for p, t in (("f", "f"), ("d", "d"), ("ld", "ld")):
-        funcs = [("c20_%s%s" % (p, o), "%s, %s:a, %s:b" % (t, t, t), ["local %s:r" % t, "%s%s r, a, b" % (p, o), "ret r"]) for o in ["add", "sub", "mul", "div"]]
+        # symbolic operands where the SAT back end decides the equivalence of the two copies of the IEEE circuit in reasonable time
+        # (measured: fadd 15 s, dadd 60 s CPU; dmul no verdict in 120 s); mul / div and all long double arithmetic on a grid of constants
+        sym = ["add", "sub"] if p != "ld" else []
+        funcs = [("c20_%s%s" % (p, o), "%s, %s:a, %s:b" % (t, t, t), ["local %s:r" % t, "%s%s r, a, b" % (p, o), "ret r"]) for o in sym]
         funcs.append(("c20_%sneg" % p, "%s, %s:a" % (t, t), ["local %s:r" % t, "%sneg r, a" % p, "ret r"]))
         u.module("ops_%s_arith" % p, [], funcs, [f[0] for f in funcs])
+        body = ["local i64:t, %s:x, %s:y, %s:r, d:dd" % (t, t, t)]
+        off = 0
+        for xv, yv in [(3, 7), (-5, 2), (1, 3), (1 << 40, 3), (0, 5), (1000003, -7)]:
+            body += ["mov t, %d" % xv, "i2%s x, t" % p, "mov t, %d" % yv, "i2%s y, t" % p]
+            for o in (["mul", "div"] if p != "ld" else ["add", "sub", "mul", "div"]):
+                body.append("%s%s r, x, y" % (p, o))
+                if p == "f":
+                    body.append("fmov f:%d(b), r" % off)
+                elif p == "d":
+                    body.append("dmov d:%d(b), r" % off)
+                else:
+                    body += ["ld2d dd, r", "dmov d:%d(b), dd" % off]
+                off += 8
+        body.append("ret 0")
+        u.module("ops_%s_grid" % p, [], [("c20_%sgrid" % p, "i64, p:b", body)], ["c20_%sgrid b=buf%d note=operands_on_a_grid_of_constants" % (p, off)])
         mvf = [("c20_%smov" % p, "%s, %s:a" % (t, t), ["local %s:r" % t, "%smov r, a" % p, "ret r"])]
         u.module("ops_%s_mov" % p, [], mvf, [f[0] for f in mvf])
         funcs = [("c20_%s%s" % (p, o), "i64, %s:a, %s:b" % (t, t), ["local i64:r", "%s%s r, a, b" % (p, o), "ret r"]) for o in ["eq", "ne", "lt", "le", "gt", "ge"]]
